@@ -328,23 +328,27 @@ __in_range_p(struct dt_dt_s now, const struct dseq_clo_s *clo)
 	/* otherwise perform a simple range check */
 	if (clo->dir > 0) {
 		if (clo->fst.t.u < clo->lst.t.u) {
-			/* dseq A B  with A < B */
-			return now.t.u >= clo->fst.t.u &&
+			/* dseq A B  with A < B, we're done once we wrap */
+			return now.d.u == 0U &&
+				now.t.u >= clo->fst.t.u &&
 				now.t.u <= clo->lst.t.u;
 		} else {
 			/* dseq A B  with A > B and wrap-around,
 			 * carries have kindly been stored in d.u */
-			return now.t.u <= clo->lst.t.u || now.d.u == 0U;
+			return now.d.u == 0U ||
+				now.d.u == 1U && now.t.u <= clo->lst.t.u;
 		}
 	} else if (clo->dir < 0) {
 		if (clo->fst.t.u > clo->lst.t.u) {
-			/* counting down from A to B */
-			return now.t.u <= clo->fst.t.u &&
+			/* counting down from A to B, done once we wrap */
+			return now.d.u == 0U &&
+				now.t.u <= clo->fst.t.u &&
 				now.t.u >= clo->lst.t.u;
 		} else {
 			/* count down from A to B with wrap around,
 			 * carries have kindly been stored in d.u */
-			return now.t.u >= clo->lst.t.u || now.d.u == 0U;
+			return now.d.u == 0U ||
+				now.d.u == -1U && now.t.u >= clo->lst.t.u;
 		}
 	}
 	return false;
